@@ -202,7 +202,7 @@ class RxBench:
                     if queue_hdr(op[1], op[2], {}, separator=True) is None:
                         info["skipped"] += 1
                 elif op[0] == "lrty":
-                    if st["enabled"] and not st["lbad_owed"]:
+                    if st["enabled"] and not st["lbad_owed"] and not words:
                         queue_lrty(None)
                     else:
                         info["skipped"] += 1
@@ -435,6 +435,7 @@ class RxBench:
             elif f["seq"] == st["exp"]:
                 st["exp"] = (st["exp"] + 1) % 8
                 st["credits"] -= 1
+                tag["acc"] = True          # partner's view: this one should be accepted (classification aid only)
         elif tag["e"] == "lc_rx":
             pc = P.parse_link_command_word(tag["lo"] | (tag["hi"] << 16))
             if pc["ok"] and tag["ctrl"] == 0 and pc["cmd"] == P.LRTY:
@@ -554,6 +555,25 @@ def in_command(tx, c):
     return any(e is not None and s - 1 <= c <= e for s, e, _w in tx)
 
 
+def lgood_unsent(trace, c):
+    """Headers the partner considers accepted whose LGOOD had not completely gone out by cycle c (current epoch)."""
+    n = 0
+    adv = False
+    for r in trace:
+        if r["t"] > c:
+            break
+        if r["e"] == "up":
+            n, adv = 0, True
+        elif r["e"] == "hdr" and r.get("acc"):
+            n += 1
+        elif r["e"] == "txe" and ((r["lo"] >> 7) & 0xF) == P.LGOOD:
+            if adv:
+                adv = False
+            else:
+                n -= 1
+    return max(n, 0)
+
+
 def rx_prepare(items):
     """Replace header words by an index into a shared table (so TLC computes each CRC once)."""
     table, index, out = [], {}, []
@@ -565,7 +585,7 @@ def rx_prepare(items):
                 if key not in index:
                     table.append(list(key))
                     index[key] = len(table)
-                r = {"e": "hdr", "h": index[key], "t": r["t"], "t0": r.get("t0")}
+                r = {"e": "hdr", "h": index[key], "t": r["t"], "t0": r.get("t0"), "acc": r.get("acc", False)}
             t2.append(r)
         out.append((t2, meta))
     return out, table
@@ -576,6 +596,8 @@ def rx_classify(trace, matched, status, meta):
     k = matched if status != "ok" else matched + 1
     pre = trace[:k]
     pattern = "other"
+    if status.startswith("env_"):
+        raise tlc.TLCError("stimulus left the Env assumptions (%s) at step %d: %s" % (status, k, pre[-3:]))
     # last link-down before the failing record, and USB-reset strobes after it
     down_i = max([i for i, r in enumerate(pre) if r["e"] == "down"], default=None)
     if down_i is not None:
@@ -589,6 +611,8 @@ def rx_classify(trace, matched, status, meta):
         times = [pre[down_i]["t"]] + [r["t"] for r in pre[down_i:] if r["e"] == "reset"]
         if any(in_command(tx, t) for t in times):
             pattern = "link_down_during_link_command"
+        elif lgood_unsent(trace, pre[down_i]["t"] - 1) > 0:
+            pattern = "link_down_with_unsent_lgood"
     if pattern == "other":
         hd = [r for r in pre if r["e"] == "hdr"]
         if any(b.get("t0") is not None and b["t0"] == a["t"] + 1 for a, b in zip(hd, hd[1:])):
@@ -725,8 +749,9 @@ def check_C38(rep):
                "it is low; usb_reset is asserted only while enable is low or from the cycle it falls" % MIN_DOWN)
     rep.assume("commands that complete while enable is low are not constrained; after enable rose every completed "
                "command must be a fresh one")
-    rep.assume("clean stimuli drop the link / reset only while the DUT is not busy with a link command (finding "
-               "C38-link-down-during-link-command); witness stimuli do it at every cycle offset of every command")
+    rep.assume("clean stimuli drop the link / reset only while the DUT is not busy with a link command and no LGOOD "
+               "for a received header is still owed (findings C38-link-down-during-link-command, "
+               "C38-link-down-with-unsent-lgood); witness stimuli do it at every cycle offset of every command")
     ph = _Phase(rep)
     _rx_model_check(rep)
     ph.mark("model-check")
@@ -747,7 +772,7 @@ def check_C38(rep):
                 for reset, rl in kinds:
                     tail = [("wait", MIN_DOWN + (c % 7))] + RX_TAIL
                     tr, info = bench.run(script, random.Random(seed), crash=(c, reset, rl, tail), stall_p=stall_p)
-                    busy = in_command(info0["tx"], c)
+                    busy = in_command(info0["tx"], c) or lgood_unsent(tr0, c - 1) > 0
                     off = min((c - s for s, e, _ in info0["tx"] if e is not None and s - 3 <= c <= e + 2),
                               default=None)
                     meta = {"origin": "crash-sweep", "scenario": name, "variant": variant, "cycle": c,
